@@ -129,6 +129,14 @@ func (tds *Conn) NewChannel() (*Channel, error) {
 func (tdsChan *Channel) Reset() {
 	tdsChan.RLock()
 	defer tdsChan.RUnlock()
+	tdsChan.reset()
+}
+
+// reset is Reset for callers already holding the read lock. The read
+// lock must not be acquired recursively - a concurrent Close waiting
+// for the write lock blocks further read locks and would deadlock
+// with the caller.
+func (tdsChan *Channel) reset() {
 	if tdsChan.closed {
 		return
 	}
@@ -504,7 +512,7 @@ func (tdsChan *Channel) SendRemainingPackets(ctx context.Context) error {
 
 	// SendRemainingPackets is only called when completing sending
 	// packets to the server and preparing to receive the answer.
-	defer tdsChan.Reset()
+	defer tdsChan.reset()
 	return tdsChan.sendPackets(ctx, false)
 }
 
